@@ -316,6 +316,60 @@ def _twin_raise(d: str) -> int:
     return n
 
 
+def _twin_respell(d: str) -> int:
+    """Mechanical, behaviour-preserving re-spellings that exercise the load-time normal form (pv/inline.py, pv/normal.py):
+       * the final `return <expr>` of every function moves into a nested helper that is called at once (a closure without parameters);
+       * `if c: A else: B` (no elif on either side) becomes `if not c: B else: A`;
+       * `x = <expr>` immediately followed by `return x` becomes `return <expr>`."""
+    n = 0
+    for p in _py_files(d):
+        tree = ast.parse(open(p, encoding="utf-8").read())
+        changed = False
+
+        class T(ast.NodeTransformer):
+            def visit_If(self, node):
+                nonlocal changed
+                self.generic_visit(node)
+                if node.orelse and not (len(node.orelse) == 1 and isinstance(node.orelse[0], ast.If)) \
+                        and not (len(node.body) == 1 and isinstance(node.body[0], ast.If)) \
+                        and not (isinstance(node.test, ast.UnaryOp) and isinstance(node.test.op, ast.Not)):
+                    changed = True
+                    node.test = ast.UnaryOp(op=ast.Not(), operand=node.test)
+                    node.body, node.orelse = node.orelse, node.body
+                return node
+
+            def _fn(self, node):
+                nonlocal changed
+                self.generic_visit(node)
+                if any(isinstance(x, (ast.Yield, ast.YieldFrom, ast.Await)) for x in ast.walk(node)):
+                    return node
+                last = node.body[-1] if node.body else None
+                if isinstance(last, ast.Return) and last.value is not None and not isinstance(last.value, (ast.Name, ast.Constant)) \
+                        and not any(isinstance(x, (ast.NamedExpr, ast.Lambda)) for x in ast.walk(last.value)) \
+                        and not any(isinstance(x, ast.Call) and isinstance(x.func, ast.Name) and x.func.id in ("super", "locals", "vars") for x in ast.walk(last.value)):
+                    used = {x.id for x in ast.walk(node) if isinstance(x, ast.Name)} | {a.arg for a in ast.walk(node) if isinstance(a, ast.arg)}
+                    name = "_result_of_" + node.name.strip("_")
+                    if name not in used:
+                        helper = ast.FunctionDef(name=name, args=ast.arguments(posonlyargs=[], args=[], kwonlyargs=[], kw_defaults=[], defaults=[]),
+                                                 body=[ast.Return(value=last.value)], decorator_list=[], returns=None, type_comment=None)
+                        try:
+                            helper.type_params = []
+                        except Exception:
+                            pass
+                        call = ast.Return(value=ast.Call(func=ast.Name(id=name, ctx=ast.Load()), args=[], keywords=[]))
+                        node.body[-1:] = [helper, call]
+                        changed = True
+                return node
+
+            visit_FunctionDef = _fn
+        new = T().visit(tree)
+        if changed:
+            n += 1
+            ast.fix_missing_locations(new)
+            open(p, "w", encoding="utf-8").write(ast.unparse(new) + "\n")
+    return n
+
+
 def run(pid: str, repo: str, seed: int = 0) -> dict:
     out = {"mutants_applied": 0, "mutants_fired": 0, "mutants_skipped": [], "twins_run": 0, "twins_silent": 0, "failures": [], "details": []}
     base, _ = _violations(pid, repo)
@@ -356,7 +410,8 @@ def run(pid: str, repo: str, seed: int = 0) -> dict:
         if muts and out["mutants_applied"] < max(1, len(muts) // 2):
             out["failures"].append(f"only {out['mutants_applied']} of {len(muts)} must-fire mutants still apply to the tree")
         for name, fn in (("reformat (ast.unparse of every module)", _twin_reformat), ("rename locals", _twin_rename), ("assert->raise, != -> not ==", _twin_raise),
-                         ("rename every local variable", _twin_rename_all)):
+                         ("rename every local variable", _twin_rename_all),
+                         ("final expression in a nested helper, two-way branches negated", _twin_respell)):
             d = _copy_repo(repo)
             scratch.append(d)
             try:
